@@ -21,6 +21,7 @@ empty input and every strict prefix of the block index stream.
 -/
 namespace VtProps.C12
 open VtModel.Crash
+open VtModel.Fmt (Bytes beDec beEnc leDec leEnc)
 
 /-! ### crash states from an arbitrary writer state -/
 
@@ -123,7 +124,7 @@ theorem openP_none_of_byte98 (dec : Dec) (file : Bytes) (h : file[98]?.getD 0 = 
       · rfl
       · split
         · rfl
-        · cases compOfCodeP ((hd.drop 97).headD 0) <;> simp
+        · cases compOfCodeP ((hd.drop 97).headD 0).toNat <;> simp
 
 theorem openP_none_of_headZero (dec : Dec) (file : Bytes) (h : HeadZero file) : openP dec file = none :=
   openP_none_of_byte98 dec file (h 98 (by omega))
@@ -351,7 +352,7 @@ theorem openV_none_of_index (dec : Dec) (file : Bytes)
     · rfl
     · split
       · rfl
-      · cases compOfCodeV ((hd.drop 15).headD 0) <;> simp
+      · cases compOfCodeV ((hd.drop 15).headD 0).toNat <;> simp
 
 theorem slice_zero_66 {file hd : Bytes} (h : slice file 0 66 = some hd) : hd = file.take 66 ∧ 66 ≤ file.length := by
   unfold slice at h
